@@ -14,16 +14,20 @@ use quizx::vec_graph::Graph;
 use serde_json::{json, Value};
 use std::time::Instant;
 
-fn sim(c: &Circuit) -> Tensor {
-    sim_circuit(&to_rcircuit(c, &[]).unwrap()).0
+fn sim3(c: &Circuit) -> (Tensor, usize, usize) {
+    sim_circuit(&to_rcircuit(c, &[]).unwrap())
 }
 
 pub fn judge_pair(st: &mut Stats, c1: &Circuit, c2: &Circuit, relation: &'static str) {
     st.inc("cases");
-    let same_dim = c1.num_qubits() == c2.num_qubits();
-    let (t1, t2) = (sim(c1), sim(c2));
+    // arity = (inputs, outputs): ancilla initialisation removes an input, post-selection an output
+    let ((t1, i1, o1), (t2, i2, o2)) = (sim3(c1), sim3(c2));
+    let same_dim = (i1, o1) == (i2, o2);
     let eq = same_dim && tensors_equal(&t1, &t2);
     let prop = same_dim && tensors_prop(&t1, &t2);
+    // 'equal' is only promised for circuits / unitary diagrams: V1^dagger V2 = 1 implies V1 = V2 for isometries, not once
+    // a post-selection makes a map non-isometric; such answers are counted, not judged
+    let isometric = !c1.gates.iter().chain(c2.gates.iter()).any(|g| g.t == PostSelect);
     let exact_track = matches!((&t1, &t2), (Tensor::Exact(_), Tensor::Exact(_)));
     let wit = |what: &str| json!({"kind": "pair", "c1": circuit_json(c1), "c2": circuit_json(c2), "relation": relation, "what": what, "qasm1": c1.to_qasm(), "qasm2": c2.to_qasm()});
     for phase in [true, false] {
@@ -31,6 +35,7 @@ pub fn judge_pair(st: &mut Stats, c1: &Circuit, c2: &Circuit, relation: &'static
         let what = format!("equal_circuit_with_options(up_to_global_phase={})", phase);
         match guarded(|| equal_circuit_with_options(c1, c2, phase)) {
             Err(p) => st.violation(Violation { sig: format!("equal_circuit|panic|{}|{}", relation, last_panic_site()), detail: p, witness: wit(&what) }),
+            Ok(Some(true)) if !isometric => st.inc("equal_answers_on_post_selected_maps_not_judged"),
             Ok(Some(true)) => {
                 let ok = if phase { prop } else { eq };
                 if !ok {
@@ -51,7 +56,7 @@ pub fn judge_pair(st: &mut Stats, c1: &Circuit, c2: &Circuit, relation: &'static
     }
     // default entry point = up to global phase
     if let Ok(r) = guarded(|| equal_circuit(c1, c2)) {
-        if r == Some(true) && !prop {
+        if r == Some(true) && !prop && isometric {
             st.violation(Violation { sig: format!("equal_circuit-default|wrong-true|{}", relation), detail: "equal_circuit answered equal for non-proportional maps".into(), witness: wit("equal_circuit") });
         }
     }
@@ -59,7 +64,7 @@ pub fn judge_pair(st: &mut Stats, c1: &Circuit, c2: &Circuit, relation: &'static
     st.inc("evaluations");
     match guarded(|| equal_circuit_dim(c1, c2)) {
         Ok(d) if d == same_dim => {}
-        Ok(d) => st.violation(Violation { sig: "equal_circuit_dim|wrong".into(), detail: format!("answered {} for {} / {} qubits", d, c1.num_qubits(), c2.num_qubits()), witness: wit("equal_circuit_dim") }),
+        Ok(d) => st.violation(Violation { sig: "equal_circuit_dim|wrong".into(), detail: format!("answered {} for arities {:?} / {:?}", d, (i1, o1), (i2, o2)), witness: wit("equal_circuit_dim") }),
         Err(p) => st.violation(Violation { sig: "equal_circuit_dim|panic".into(), detail: p, witness: wit("equal_circuit_dim") }),
     }
     if exact_track {
@@ -84,7 +89,7 @@ pub fn judge_pair(st: &mut Stats, c1: &Circuit, c2: &Circuit, relation: &'static
         for phase in [true, false] {
             match guarded(|| equal_graph_with_options(&g1, &g2, phase)) {
                 Err(p) => st.violation(Violation { sig: format!("equal_graph|panic|{}|{}", sname, last_panic_site()), detail: p, witness: wit(&what) }),
-                Ok(Some(true)) if !(if phase { prop } else { eq }) => st.violation(Violation { sig: format!("equal_graph|phase={}|wrong-true|{}|{}", phase, sname, relation), detail: "answered equal for maps that are not".into(), witness: wit(&what) }),
+                Ok(Some(true)) if isometric && !(if phase { prop } else { eq }) => st.violation(Violation { sig: format!("equal_graph|phase={}|wrong-true|{}|{}", phase, sname, relation), detail: "answered equal for maps that are not".into(), witness: wit(&what) }),
                 Ok(Some(false)) if eq => st.violation(Violation { sig: format!("equal_graph|phase={}|wrong-false|{}|{}", phase, sname, relation), detail: "answered not equal for identical maps".into(), witness: wit(&what) }),
                 _ => {}
             }
@@ -206,6 +211,45 @@ pub fn run(rep: &mut Report) {
         let mut st = Stats::default();
         head_tail_family(&mut st, if quick { 3 } else { 4 });
         rep.absorb("head/tail exchanges", "every head of <= 3 (thorough 4) Pauli / S / T gates on 2 qubits followed by one of 4 entangling tails (phase gadgets after simplification), against the same circuit with two adjacent head gates exchanged", true, None, t0, st);
+    }
+    // isometries and post-selected maps: ancilla initialisation in front, a short body, post-selection at the end
+    {
+        let t0 = Instant::now();
+        let q = 2usize;
+        let alpha = alpha_ct(q);
+        let depth = if quick { 1 } else { 2 };
+        let nb = circuit_count(alpha.len(), depth);
+        let masks: Vec<(u32, u32)> = (0..3u32).flat_map(|a| (0..3u32).map(move |b| (a, b))).filter(|&m| m != (0, 0)).collect();
+        let build = |m: (u32, u32), body: u64| {
+            let mut c = Circuit::new(q);
+            // mask 0 = none, 1 = qubit 0, 2 = qubit 1
+            if m.0 > 0 {
+                c.push(Gate::new(InitAncilla, vec![(m.0 - 1) as usize]));
+            }
+            for g in circuit_at(q, &alpha, depth, body).gates.iter() {
+                c.push(g.clone());
+            }
+            if m.1 > 0 {
+                c.push(Gate::new(PostSelect, vec![(m.1 - 1) as usize]));
+            }
+            c
+        };
+        let nm = masks.len() as u64;
+        // same arity: every ordered pair of bodies; different arities: every ordered pair of masks on the first bodies
+        let stats = sweep_range(nm * nb * nb + nm * nm * 4, |st, idx| {
+            watch_begin(idx, 4);
+            if idx < nm * nb * nb {
+                let m = masks[(idx / (nb * nb)) as usize];
+                let r = idx % (nb * nb);
+                judge_pair(st, &build(m, r / nb), &build(m, r % nb), "ancilla-same-arity");
+            } else {
+                let r = idx - nm * nb * nb;
+                let (ma, mb) = (masks[((r / 4) / nm) as usize], masks[((r / 4) % nm) as usize]);
+                judge_pair(st, &build(ma, r % 4), &build(mb, (r % 4) / 2), "ancilla-mixed-arity");
+            }
+            watch_end();
+        });
+        rep.absorb("ancilla and post-selection pairs", &format!("2-qubit circuits init_anc(S) ; body of <= {} gates ; post_sel(S') for the 8 non-trivial (S, S'): every ordered pair of bodies at equal arity, every ordered pair of arities on four bodies; 'not equal' and the tensor / dimension helpers judged on all of them, 'equal' on the isometric ones (no post-selection)", depth), true, None, t0, stats);
     }
     // constructed partners
     for (name, q, alpha, d) in if quick { vec![("partners K(2,3,A_ct)", 2usize, alpha_ct(2), 3usize), ("partners K(3,1,A_full)", 3, alpha_full(3), 1), ("partners K(2,1,A_tol)", 2, alpha_tol(2), 1), ("partners K(3,2,A_pp)", 3, alpha_pp(3), 2)] } else { vec![("partners K(2,3,A_ct)", 2, alpha_ct(2), 3), ("partners K(3,2,A_ct)", 3, alpha_ct(3), 2), ("partners K(3,2,A_full)", 3, alpha_full(3), 2), ("partners K(2,2,A_tol)", 2, alpha_tol(2), 2), ("partners K(3,3,A_pp)", 3, alpha_pp(3), 3)] } {
